@@ -1,6 +1,7 @@
 package world
 
 import (
+	"context"
 	"fmt"
 	"strings"
 	"time"
@@ -28,12 +29,17 @@ type Op struct {
 	ToSrv  bool // issued on the client-side session (towards the server side)
 	Caller int  // caller task index on that session end
 	// handler script
-	HYield  int
-	HSleep  time.Duration
-	HStatus [3]string // code,msg,cause as strings; empty code = OK
-	HCode   int32
-	HPanic  bool
-	HNested bool // call back to the caller before returning
+	HYield int
+	HSleep time.Duration
+	// CtxTimeout > 0: the message is sent with erpc.WithContext(a context with that deadline), generous enough
+	// never to expire in a healthy run; it arms the connection's write deadline for this message
+	CtxTimeout time.Duration
+	// AcceptCodec != 0: erpc.WithAcceptBodyCodec (the body codec the caller wishes the reply to use)
+	AcceptCodec byte
+	HStatus     [3]string // code,msg,cause as strings; empty code = OK
+	HCode       int32
+	HPanic      bool
+	HNested     bool // call back to the caller before returning
 	// results
 	Issued    bool
 	IssuedAt  int
@@ -228,7 +234,16 @@ func (s *Std) Blank(arg *[]byte) ([]byte, *erpc.Status) {
 }
 
 // Note handles a Payload push.
-func (s *StdPush) Note(arg *Payload) *erpc.Status {
+func (s *StdPush) Note(arg *Payload) *erpc.Status { return noteImpl(s, arg) }
+
+// NoteFn and (*StdPushMx).NoteMx are the same push handler in the two function forms.
+func NoteFn(ctx erpc.PushCtx, arg *Payload) *erpc.Status { return noteImpl(ctx, arg) }
+
+type StdPushMx struct{ erpc.PushCtx }
+
+func (s *StdPushMx) NoteMx(arg *Payload) *erpc.Status { return noteImpl(s, arg) }
+
+func noteImpl(s erpc.PushCtx, arg *Payload) *erpc.Status {
 	e, _ := enter(s, "push", arg.Tag, arg.String())
 	leave(e, s, "push")
 	return nil
@@ -249,6 +264,8 @@ type Routes struct {
 	Blank string
 	// EchoFn and EchoMx name the Echo handler registered in the two function forms (empty: not registered)
 	EchoFn, EchoMx string
+	// NoteFn and NoteMx: the same for the Note push handler
+	NoteFn, NoteMx string
 }
 
 // RegisterStd registers the standard handlers on p.
@@ -284,6 +301,8 @@ func (e *Env) RegisterStd(p erpc.Peer) Routes {
 			r.Note = s
 		}
 	}
+	r.NoteFn = p.RoutePushFunc(NoteFn)
+	r.NoteMx = p.RoutePushFunc((*StdPushMx).NoteMx)
 	return r
 }
 
@@ -298,6 +317,13 @@ func (op *Op) settings() []erpc.MessageSetting {
 	}
 	if len(op.Pipe) > 0 {
 		st = append(st, erpc.WithXferPipe(op.Pipe...))
+	}
+	if op.AcceptCodec != 0 {
+		st = append(st, erpc.WithAcceptBodyCodec(op.AcceptCodec))
+	}
+	if op.CtxTimeout > 0 {
+		ctx, _ := context.WithTimeout(context.Background(), op.CtxTimeout) // released when the (fake) deadline passes
+		st = append(st, erpc.WithContext(ctx))
 	}
 	return st
 }
@@ -327,6 +353,11 @@ func (e *Env) Issue(sess erpc.Session, rt Routes, op *Op, ch chan erpc.CallCmd) 
 		method, arg, res = rt.Bytes, &b, new([]byte)
 	case "note":
 		method, arg = rt.Note, &Payload{Tag: op.Tag, Data: op.Data, N: op.N}
+		if k := op.Idx % 3; k == 1 && rt.NoteFn != "" {
+			method = rt.NoteFn
+		} else if k == 2 && rt.NoteMx != "" {
+			method = rt.NoteMx
+		}
 	case "note_plain":
 		s := op.Tag + ";" + op.Data
 		method, arg = rt.NotePlain, &s
